@@ -45,6 +45,7 @@ type childSpec struct {
 	CrashHook   string   `json:"crashHook"`  // alternatively: the first hit of this hook point for CrashLabel in CrashPhase
 	CrashLabel  string   `json:"crashLabel"`
 	PreferIndex bool     `json:"preferIndex"`
+	Args        []string `json:"args"` // LoadOptions.Args: the project's flags, the same for every load of a history
 	Runs        []RunOpt `json:"runs"` // op multirun: several Runs on ONE loaded project
 }
 
@@ -367,6 +368,7 @@ func childMain(specPath string) int {
 		Events:      childEvents{},
 		Builtins:    starlark.StringDict{"vb": vbModule},
 		PreferIndex: spec.PreferIndex,
+		Args:        spec.Args,
 	})
 	if err != nil {
 		ctl.appendLine("events.log", "LE\t"+strings.ReplaceAll(err.Error(), "\n", " "))
